@@ -411,11 +411,11 @@ func init() {
 		Rule:        "8 programs (find/replace, flat captures, named loops nested to depth 2, zero matches, multi-command) x ASCII texts of length 0..T (quick 2, thorough 3) over ALL 128 values incl. quotes, backslashes and control characters: the real Json/FormattedJson/MarshalJSON code renders through the abstract encoding/json codec; both renderings are parsed by the harness' JSON parser, compared as documents and against the in-memory matches field by field (keys exactly as documented, replacement iff replace, nested variables)",
 		Assumptions: []string{"encoding/json is replaced by a type-directed codec stub honouring the json.Marshaler contract (calls the repository's MarshalJSON methods); byte-level escaping, invalid UTF-8 and non-ASCII handling of the real encoder are outside the claim (exercised only when a counterexample is replayed natively)", "ASCII texts"},
 		Groups: []JobGroup{
-			{Name: "c17", Overlay: libOverlay("C17/c17.go"), Pkg: "libvore", Entry: "VerifC17",
+			{Name: "c17", Overlay: libOverlay("common/jsonparse.go", "C17/c17.go"), Pkg: "libvore", Entry: "VerifC17",
 				Args: func(tier string, l *Loaded) [][]int64 {
 					return seqArgs(countOf(l, "libvore", "VerifC17Count"), tOf(tier, 2, 3), 0)
 				}},
-			{Name: "c17-twin", Overlay: libOverlay("C17/c17.go"), Pkg: "libvore", Entry: "VerifC17", Twin: true,
+			{Name: "c17-twin", Overlay: libOverlay("common/jsonparse.go", "C17/c17.go"), Pkg: "libvore", Entry: "VerifC17", Twin: true,
 				Args: func(tier string, l *Loaded) [][]int64 { return [][]int64{{0, 1, 1}} }},
 		}}
 	properties["C18"] = &PropertySpec{ID: "C18",
